@@ -11,12 +11,12 @@ func init() { register("C06", "Run.C06", genC06) }
 // a fault or a genuine answer; plus cache faults, cancellation, and the isolation companion run.
 func genC06(tier string, rng *RNG, w *CaseWriter) {
 	w.ShardSize = 200
-	oFaults := []ocspBehav{{Kind: "transport"}, {Kind: "timeout"}, {Kind: "http404"}, {Kind: "http500"}, {Kind: "http302"}, {Kind: "empty"},
+	oFaults := []ocspBehav{{Kind: "transport"}, {Kind: "timeout"}, {Kind: "http404"}, {Kind: "http500"}, {Kind: "http302"}, {Kind: "http500-good-body"}, {Kind: "http201-good-body"}, {Kind: "empty"},
 		{Kind: "truncated"}, {Kind: "oversized"}, {Kind: "garbage"}, {Kind: "readerr"}, {Kind: "canned-unauthorized"}, {Kind: "canned-malformed"},
 		{Kind: "canned-internal"}, {Kind: "canned-trylater"}, {Kind: "canned-sigrequired"}, {Kind: "badurl"}, {Kind: "scheme"}, oStale, oForged,
 		respB("issuer", 0, "absent", "none")}
 	oGenuine := []ocspBehav{oGood, oRevoked, oUnknown}
-	cFaultKinds := []string{"503", "404", "302", "empty", "garbage", "truncated", "transport", "timeout", "readerr", "delta-nonhttp", "delta-unreachable", "delta-ext-malformed"}
+	cFaultKinds := []string{"503", "404", "302", "empty", "garbage", "truncated", "transport", "timeout", "readerr", "delta-nonhttp", "delta-unreachable", "delta-ext-malformed", "500-valid-crl", "404-valid-crl", "201-valid-crl"}
 	cInvalid := []dpBehav{dpByName("expired"), dpByName("wrong-signer"), dpByName("no-nextupdate"), dpByName("bad-signature"), dpByName("crit-ext"), dpByName("delta-number-equal")}
 	cGenuine := []dpBehav{dpByName("clean"), dpByName("lists-cert"), dpByName("delta-clean")}
 	caches := []string{"", "", "miss", "getfail", "setfail", "getfail-discard", "setfail-discard", "stale"}
